@@ -24,6 +24,7 @@ Notation finish_exch := (finish_exch interval).
 Notation begin_exch := (begin_exch interval).
 Notation step := (step md timeout interval slice).
 Notation run := (run md timeout interval slice).
+Notation flush_then := (flush_then interval).
 
 (* ================================================================== (1) reconnect rate *)
 Definition is_access (p : cpc) : bool := match p with CAccess => true | _ => false end.
@@ -96,6 +97,16 @@ Qed.
 Lemma la_connect_ok : forall s, last_attempt (connect_ok s) = last_attempt s.
 Proof. intros s. unfold connect_ok. destruct (last_error s); reflexivity. Qed.
 
+Lemma att_flush_then : forall now s s1 c p, last_attempt s1 = last_attempt s -> is_access p = false ->
+  att now s (flush_then now s1 c p).
+Proof.
+  intros now s s1 c p E NA.
+  destruct (flush_then_cases interval now s1 c p) as [(q & _ & _ & ->)|[(q & _ & _ & ->)|(_ & ->)]].
+  - eapply att_la; [|apply att_fail_op]. exact E.
+  - right. split; [exact NA|exact E].
+  - eapply att_la; [|apply att_fail_op]. exact E.
+Qed.
+
 Lemma caller_step_att : forall i now s c, att now s (caller_step i now s c).
 Proof.
   intros i now s c. unfold Model.caller_step. destruct (pc c) eqn:P.
@@ -110,11 +121,7 @@ Proof.
     + destruct (begin_exch now (acquire i s)) as [[s2 p]|] eqn:E.
       * apply begin_att in E. destruct E as [(-> & A & B & C)|(-> & ->)]; [left|right]; simpl; auto.
       * eapply att_la; [|apply att_fail_op]. reflexivity.
-  - destruct (conn (acquire i s)).
-    + destruct (flush now (queue (acquire i s))) as [[|] q].
-      * eapply att_la; [|apply att_fail_op]. reflexivity.
-      * right. split; reflexivity.
-    + eapply att_la; [|apply att_fail_op]. reflexivity.
+  - destruct (wait_of c =? 0); [apply att_flush_then; reflexivity|right; split; reflexivity].
   - destruct (x_noreply (cur_x c)). { eapply att_la; [|apply att_finish]. reflexivity. }
     destruct (try_frame md (x_n (cur_x c)) _) as [[r rst]|].
     + eapply att_la; [|apply att_finish]. reflexivity.
@@ -133,6 +140,8 @@ Proof.
   - apply att_next.
   - apply att_run_ops.
   - right. simpl. rewrite P. split; reflexivity.
+  - destruct first; [apply att_flush_then; [reflexivity|destruct l; reflexivity]|right; destruct l; split; reflexivity].
+  - right. destruct l; split; reflexivity.
 Qed.
 
 (* a caller parked at the entry of read_is_connected leaves it with its step *)
@@ -323,6 +332,13 @@ Proof.
   destruct (cur c) as [|x xs]; [apply next_nc|]. destruct (x_delay x =? 0); [apply next_nc|simpl; discriminate].
 Qed.
 
+Lemma flush_then_nc : forall now s1 c p, p <> CConnect -> pc (snd (flush_then now s1 c p)) <> CConnect.
+Proof.
+  intros now s1 c p NP.
+  destruct (flush_then_cases interval now s1 c p) as [(q & _ & _ & ->)|[(q & _ & _ & ->)|(_ & ->)]];
+    [apply fail_op_nc|exact NP|apply fail_op_nc].
+Qed.
+
 (* only the step at the entry of read_is_connected leads into the connecting branch *)
 Lemma caller_step_nc : forall i now s c, pc c <> CAccess -> pc (snd (caller_step i now s c)) <> CConnect.
 Proof.
@@ -333,8 +349,7 @@ Proof.
   - destruct (cur c); [apply run_ops_nc|].
     destruct (begin_exch now (acquire i s)) as [[s2 p]|] eqn:E; [|apply fail_op_nc].
     apply begin_exch_lk in E. destruct E as [_ [->| ->]]; simpl; discriminate.
-  - destruct (conn (acquire i s)); [|apply fail_op_nc].
-    destruct (flush now (queue (acquire i s))) as [[|] q]; [apply fail_op_nc|simpl; discriminate].
+  - destruct (wait_of c =? 0); [apply flush_then_nc; discriminate|simpl; discriminate].
   - destruct (x_noreply (cur_x c)); [apply finish_nc|].
     destruct (try_frame md (x_n (cur_x c)) _) as [[r rst]|]; [apply finish_nc|simpl; discriminate].
   - destruct (queue s) as [|[a [d|]] q'].
@@ -346,6 +361,8 @@ Proof.
   - apply next_nc.
   - apply run_ops_nc.
   - simpl. rewrite P. discriminate.
+  - destruct first; [apply flush_then_nc|simpl]; destruct l; discriminate.
+  - destruct l; simpl; discriminate.
 Qed.
 
 (* frames of a field that is written neither by set_last_attempt nor by the lock operations *)
@@ -359,6 +376,18 @@ Hypothesis f_queue : forall s v, f (set_queue s v) = f s.
 Hypothesis f_rxbuf : forall s v, f (set_rxbuf s v) = f s.
 Hypothesis f_sendlog : forall s v, f (set_sendlog s v) = f s.
 Hypothesis f_lasterr : forall s v, f (set_last_error s v) = f s.
+
+Lemma flush_then_frame2 : forall now s s1 c p, f s1 = f s ->
+  let r := fst (flush_then now s1 c p) in
+  f r = f s \/ (exists s0, f s0 = f s /\ f r = f (close_conn s0)).
+Proof.
+  intros now s s1 c p E.
+  assert (FF := f_fail_op interval _ f f_la f_rel).
+  destruct (flush_then_cases interval now s1 c p) as [(q & _ & _ & E1)|[(q & _ & _ & E1)|(_ & E1)]]; simpl; rewrite E1.
+  - right. exists s1. split; [exact E|]. rewrite FF. apply f_rel.
+  - left. simpl. rewrite f_rxbuf, f_queue. exact E.
+  - left. rewrite FF, f_rel. exact E.
+Qed.
 
 (* outside read_is_connected a step leaves f alone or closes the connection *)
 Lemma caller_step_frame2 : forall i now s c, pc c <> CAccess -> pc c <> CConnect ->
@@ -376,10 +405,7 @@ Proof.
   - left. destruct (cur c). { rewrite FR, f_rel. apply f_acq. }
     destruct (begin_exch now (acquire i s)) as [[s2 p]|] eqn:E. { simpl. rewrite (FB _ _ _ _ E). apply f_acq. }
     rewrite FF. apply f_acq.
-  - destruct (conn (acquire i s)); [|left; rewrite FF, f_rel; apply f_acq].
-    destruct (flush now (queue (acquire i s))) as [[|] q].
-    + right. exists (acquire i s). split; [apply f_acq|]. rewrite FF. apply f_rel.
-    + left. simpl. rewrite f_rxbuf, f_queue. apply f_acq.
+  - destruct (wait_of c =? 0); [apply flush_then_frame2; apply f_acq|left; simpl; apply f_acq].
   - left. destruct (x_noreply (cur_x c)). { rewrite FI, f_sendlog. apply f_queue. }
     destruct (try_frame md (x_n (cur_x c)) _) as [[r rst]|].
     + rewrite FI, f_rxbuf, f_sendlog. apply f_queue.
@@ -398,6 +424,8 @@ Proof.
   - left. apply FN.
   - left. apply FR.
   - left. reflexivity.
+  - destruct first; [apply flush_then_frame2; reflexivity|left; reflexivity].
+  - left. destruct l; [reflexivity|]. simpl. unfold send_line. rewrite f_sendlog. apply f_queue.
 Qed.
 End Frame2.
 
@@ -577,6 +605,15 @@ Definition flt (now : Z) (s : shared) (c : cst) (r : shared * cst) : Prop :=
 Lemma flt_of_fl : forall now s c r, fl (outs c) r -> flt now s c r.
 Proof. intros now s c r (mid & E & H). exists mid. split; [exact E|]. intros I. left. auto. Qed.
 
+Lemma flush_then_fl : forall now s1 c p, connected s1 = conn s1 -> fl (outs c) (flush_then now s1 c p).
+Proof.
+  intros now s1 c p V.
+  destruct (flush_then_cases interval now s1 c p) as [(q & _ & _ & ->)|[(q & _ & _ & ->)|(CN & ->)]].
+  - apply fail_op_fl. reflexivity.
+  - apply fl_same. reflexivity.
+  - apply fail_op_fl. simpl. congruence.
+Qed.
+
 Lemma caller_step_flt : forall i now s c, connected s = conn s -> (pc c = CConnect -> connected s = false) ->
   flt now s c (caller_step i now s c).
 Proof.
@@ -591,10 +628,7 @@ Proof.
     + eapply fl_ext; [apply run_ops_fl|]. intros [H|[]]. discriminate.
     + destruct (begin_exch now (acquire i s)) as [[s2 p]|] eqn:E; [apply fl_same; reflexivity|].
       apply fail_op_fl. eapply begin_none; eauto.
-  - apply flt_of_fl. destruct (conn (acquire i s)) eqn:CN.
-    + destruct (flush now (queue (acquire i s))) as [[|] q]; [|apply fl_same; reflexivity].
-      apply fail_op_fl. reflexivity.
-    + apply fail_op_fl. simpl. simpl in CN. congruence.
+  - apply flt_of_fl. destruct (wait_of c =? 0); [apply flush_then_fl; exact V|apply fl_same; reflexivity].
   - apply flt_of_fl. destruct (x_noreply (cur_x c)); [apply finish_fl|].
     destruct (try_frame md (x_n (cur_x c)) _) as [[r rst]|]; [apply finish_fl|apply fl_same; reflexivity].
   - assert (TO : head_ready now (queue s) = false -> (now <? e) = false ->
@@ -615,6 +649,8 @@ Proof.
   - apply flt_of_fl. apply next_fl.
   - apply flt_of_fl. apply run_ops_fl.
   - apply flt_of_fl. apply fl_same. reflexivity.
+  - apply flt_of_fl. destruct first; [apply flush_then_fl; exact V|apply fl_same; reflexivity].
+  - apply flt_of_fl. destruct l; apply fl_same; reflexivity.
 Qed.
 
 (* both invariants together *)
